@@ -90,10 +90,33 @@ class Gen:
         """node belongs to the construction of the stub lists (not an effect on the finished lists)"""
         return self.build_loop is not None and self.par.inside(node, self.build_loop)
 
+    def private_rng(self, recv):
+        """The `random.Random(..)` constructor call a shuffle receiver stands for (written in place, or a local bound
+        once to it), else None."""
+        r = self.sc.resolve(recv) if not isinstance(recv, ast.Call) else recv
+        if isinstance(r, ast.Call) and self.ext(r.func) in ("random.Random", "random.SystemRandom"):
+            return r
+        return None
+
+    def rng_site(self, recv):
+        """the statement / expression where the generator object used at `recv` is created"""
+        if isinstance(recv, ast.Name):
+            d = self.sc.def_stmt(recv.id)
+            return d if d is not None else recv
+        return recv
+
     def shuffle_calls(self):
-        """[(call, arg)] for calls resolving to random.shuffle."""
-        return [(n, n.args[0] if n.args else None) for n in astx.walk_fn(self.fn.node)
-                if isinstance(n, ast.Call) and self.ext(n.func) == "random.shuffle"]
+        """[(call, arg)] for calls resolving to random.shuffle - the module-level function, or the method of a
+        `random.Random(..)` object (judged separately by C03.4: where it is created and from what seed)."""
+        out = []
+        for n in astx.walk_fn(self.fn.node):
+            if not isinstance(n, ast.Call):
+                continue
+            if self.ext(n.func) == "random.shuffle":
+                out.append((n, n.args[0] if n.args else None))
+            elif isinstance(n.func, ast.Attribute) and n.func.attr == "shuffle" and self.private_rng(n.func.value) is not None:
+                out.append((n, n.args[0] if n.args else None))
+        return out
 
     def column_extends(self):
         """{'edge_list'|'topologies'|'motif_id': [(call, arg)]} for EdgeList.<col>.extend/append calls."""
